@@ -1322,18 +1322,30 @@ class Trust(Packet):
         super(Trust, self).__init__()
         self.trustlevel = TrustLevel.Unknown
         self.trustflags = []
+        self._opaque = None
 
     def __bytearray__(self):
         _bytes = bytearray()
         _bytes += super(Trust, self).__bytearray__()
-        _bytes += self.int_to_bytes(self.trustlevel + sum(self.trustflags), 2)
+        if self._opaque is not None:
+            _bytes += self._opaque
+        else:
+            _bytes += self.int_to_bytes(self.trustlevel + sum(self.trustflags), 2)
         return _bytes
 
     def parse(self, packet):
         super(Trust, self).parse(packet)
+        body = packet[:self.header.length]
+        del packet[:self.header.length]
+
+        if len(body) != 2:
+            # the format is implementation-defined; only the two-octet form is understood,
+            # any other body is kept as it was received
+            self._opaque = body
+            return
+
         # self.trustlevel = packet[0] & 0x1f
-        t = self.bytes_to_int(packet[:2])
-        del packet[:2]
+        t = self.bytes_to_int(body)
 
         self.trustlevel = t
         self.trustflags = t
